@@ -14,10 +14,11 @@ import (
 // mapperrace <seed> <cachekind> <size> <readers> <reloads>
 // N lookup goroutines race with one reloader that alternates two configurations whose answers are disjoint
 // ("gen A" / "gen B" in the rule name). Checked on the real mapper:
-//   * every answer is entirely A or entirely B (name and label agree), never a mixture, and never fails;
-//   * after a reload has RETURNED, the reloader's own lookups (no other reload can intervene) answer only with the
+//   - every answer is entirely A or entirely B (name and label agree), never a mixture, and never fails;
+//   - after a reload has RETURNED, the reloader's own lookups (no other reload can intervene) answer only with the
 //     new configuration — nothing cached under the previous configuration survives;
-//   * a failing reload in between changes nothing.
+//   - a failing reload in between changes nothing.
+//
 // Output: `ok` or the first offence. The model's answer is the theorem `racing_lookup_old_or_new`: always `ok`.
 func execMapperRace(op string) string {
 	f := strings.Fields(op)
